@@ -136,6 +136,7 @@ func (i *IPv6) UnmarshalBinary(data []byte) error {
 	copy(i.NWDst, data[n:n+16])
 	n += 16
 
+	i.HbhHeader, i.RoutingHeader, i.FragmentHeader = nil, nil, nil
 	checkExtHeader := true
 	nxtHeader := i.NextHeader
 checkXHeader:
